@@ -83,7 +83,7 @@ private:
 // ------------------------------------------------------------------------------------------------ real pattern build
 constexpr size_t BIGN = 192;
 using BigDfa = rgx::dfa<BIGN>;
-struct Built { bool ok = false; bool threw = false; bool bounds = false; std::string what; size_t states = 0; long predicted = -1; bool analyzer_ok = false; };
+struct Built { bool ok = false; bool threw = false; bool bounds = false; std::string what; size_t states = 0; long predicted = -1; bool analyzer_ok = false; bool too_big = false; };
 
 template<class Buffer>
 static Built build_pattern(BigDfa& sm, const Buffer& buf) {
@@ -93,6 +93,7 @@ static Built build_pattern(BigDfa& sm, const Buffer& buf) {
         rgx::dfa_size_analyzer a; utils::no_stream ns;
         auto ar = rgx::regex_parser::regex_parser_object.context_parse(a, parse_options{}.set_skip_whitespace(false), buf, ns);
         r.analyzer_ok = ar.has_value(); if (ar) r.predicted = ar->n;
+        if (r.predicted > (long)BIGN - 8) { r.too_big = true; return r; }   // does not fit the harness's fixed-size automaton: not explored (counted)
         rgx::dfa_builder<BIGN> b(sm);
         auto br = rgx::regex_parser::regex_parser_object.context_parse(b, parse_options{}.set_skip_whitespace(false), buf, ns);
         r.ok = br.has_value();
@@ -147,7 +148,7 @@ static void enum_asts(rx::AstPool& p, int natoms, int k, bool with_rep, const st
         f(p.un(rx::PLUS, c)); p.nodes.resize(m);
         f(p.un(rx::OPT, c)); p.nodes.resize(m);
         f(p.un(rx::GROUP, c)); p.nodes.resize(m);
-        if (with_rep) for (int n = 0; n <= 3; ++n) { f(p.un(rx::REP, c, n)); p.nodes.resize(m); }
+        if (with_rep) for (int n : {0, 1, 2, 3, 10, 12}) { f(p.un(rx::REP, c, n)); p.nodes.resize(m); }   // two-digit counts exercise the number rule
     });
     for (int kl = 1; kl <= k - 2; ++kl) {
         int kr = k - 1 - kl;
@@ -188,6 +189,7 @@ static void check_pattern(const rx::AstPool& pool, const std::vector<rx::Atom>& 
     cur_subject = pat; cur_phase = "pattern";
     ctr["patterns"]++;
     Built b = build_pattern(*g_sm, buffers::string_view_buffer(std::string_view(pat)));
+    if (b.too_big) { ctr["patterns_too_big_for_harness"]++; return; }
     if (b.bounds || b.threw) { add_viol("C03", "builder-exception", pat, "", b.what); return; }
     if (!b.ok || !b.analyzer_ok) { add_viol("C03", "valid-pattern-rejected", pat, "", "a pattern in the documented syntax was refused"); add_viol("C17", "valid-pattern-rejected", pat, "", "a pattern in the documented syntax was refused"); return; }
     ctr["dfa_states_built"] += (long long)b.states;
@@ -539,6 +541,9 @@ static void run_c10() {
         {{'c', "x"}, {'r', "q[^;]*"}, {'c', ";"}},
         {{'r', "x+"}, {'s', "q\nq"}, {'c', ";"}},
         {{'c', "x"}, {'r', "q(\\x0a|\\x09|\\x0d|q)*"}, {'c', ";"}},
+        // a short term that is a prefix of a longer one: the lexer reads past the lexeme it finally delivers (also across a newline)
+        {{'c', "x"}, {'s', "xqq"}, {'c', ";"}},
+        {{'c', "q"}, {'s', "q\nq;"}, {'c', ";"}},
     };
     std::vector<std::string> inputs; gen_inputs(std::string("xq; \t\r\n"), cfg.maxlen, inputs);
     long idx = 0;
@@ -630,6 +635,7 @@ static void run_c17() {
                 std::vector<char> block(pat.begin(), pat.end()); block.push_back(0);
                 g_buf.reset(); g_steps = 0;
                 Built b = build_pattern(*g_sm, checked_buffer(block.data(), pat.size(), true));
+                if (b.too_big) { ctr["C17.too_big_for_harness_builder"]++; b.ok = b.analyzer_ok; }   // verdict of the size-analysis context only
                 ctr["C17.evals"]++; ctr[v == V_VALID ? "C17.valid" : v == V_MALFORMED ? "C17.malformed" : "C17.unspecified"]++;
                 if (b.bounds || b.threw) add_viol("C17", "exception-while-parsing-pattern", pat, "", b.what);
                 if (g_buf.deref_out) add_viol("C17", "read-past-pattern-end", pat, "", std::to_string(g_buf.deref_out) + " reads beyond the pattern's terminator");
@@ -674,8 +680,9 @@ static void run_patterns(bool dump) {
             enum_asts(ap, (int)pools[pi].atoms.size(), k, true, [&](int root) {
                 std::string pat = rx::print(ap, pools[pi].atoms, root);
                 if (!seen.insert(pat).second) return;
-                if (!dump) { std::printf("%s\n", pat.c_str()); return; }
                 Built b = build_pattern(*g_sm, buffers::string_view_buffer(std::string_view(pat)));
+                if (b.too_big) return;
+                if (!dump) { std::printf("%s\n", pat.c_str()); return; }
                 if (!b.ok) { std::printf("### %s\nREFUSED\n", pat.c_str()); return; }
                 dump_dfa(pat.c_str(), *g_sm, b.predicted);
             });
